@@ -242,6 +242,7 @@ pub struct World {
     pub ghost archives: Map<Seq<char>, Seq<u8>>,   // path of a finished zstd archive -> the bytes it decodes to
     pub ghost checked: bool,                     // C17: the configuration in use has passed Config::check
     pub ghost acted: bool,                       // C17: an API other than `config generate` has run
+    pub ghost out_deleted: Set<Seq<char>>,       // C19: the directories `out delete` was pointed at (as given to the OS)
     pub ghost effects: nat,
     pub ghost bind_attempts: nat,                // attempts to bind the lock address
     pub ghost addr_in_use: bool,                 // another process holds the lock address right now                      // number of mutating application entry points entered
